@@ -80,6 +80,8 @@ def gen_body(rng, depth=0, allow_bq=True):
         elif depth < 2:
             c = rng.choice([c for c in CTXS[:5] if allow_bq or c != "backquote"])
             out.append(("S", c, gen_body(rng, depth + 1, allow_bq and c != "backquote")))
+    if not out:
+        out.append(("F", "env", "v1=new", "v1"))
     return out
 
 
@@ -105,7 +107,8 @@ def wrap(ctx, inner):
     if ctx == "procin":
         return "/bin/cat <(\n%s\n) >/dev/null" % inner
     if ctx == "coproc":
-        return "coproc {\n%s\n}\nwait" % inner
+        # leading `:` — brush's parser rejects `coproc { {` / `coproc { (` (a parser limitation outside this property)
+        return "coproc {\n:\n%s\n}\nwait" % inner
     raise ValueError(ctx)
 
 
@@ -140,6 +143,12 @@ def mut_tok(m):
     for x in m[2]:
         out += mut_tok(x)
     return out
+
+
+def reaches_exit(body):
+    """does an `exit` executed by the body propagate out of it: a top-level exit, or one propagating out of a
+    nested last-pipeline-stage context (Coq: the flow of run_mut is Exited only through CPipeLast)"""
+    return any(m[0] == "X" or (m[0] == "S" and m[1] == "pipelast" and reaches_exit(m[2])) for m in body)
 
 
 def has(body, kind):
@@ -260,7 +269,7 @@ def run(ctx):
     model_cases, obs = [], []
     for (c, body), (d, err), text in zip(cases, res, texts):
         if d is None and err.startswith("exited"):
-            kn = "KF-C12-exit-last-stage" if c == "pipelast" and any(m[0] == "X" for m in body) else None
+            kn = "KF-C12-exit-last-stage" if c == "pipelast" and reaches_exit(body) else None
             v = {"input": {"script": text[len(PRELUDE):]}, "why": "the parent shell itself exited (%s) inside a %s subshell context" % (err, c)}
             if kn:
                 v["known"] = kn
